@@ -18,11 +18,13 @@ package c17
 import (
 	"context"
 	"encoding/binary"
+	"encoding/hex"
 	"encoding/json"
 	"errors"
 	"fmt"
 	"runtime"
 	"sort"
+	"strings"
 	"sync"
 	"sync/atomic"
 	"testing"
@@ -107,18 +109,17 @@ func (c17linBlocks) SignedBeaconBlock(ctx context.Context, opts *api.SignedBeaco
 	if err := ctx.Err(); err != nil {
 		return nil, err
 	}
-	for i := uint64(1); i <= 4096; i++ {
-		if c17linHeadRoot(i).String() == opts.Block {
-			return &api.Response[*spec.VersionedSignedBeaconBlock]{
-				Data: &spec.VersionedSignedBeaconBlock{
-					Version: spec.DataVersionCapella,
-					Capella: &capella.SignedBeaconBlock{Message: &capella.BeaconBlock{Body: &capella.BeaconBlockBody{
-						ExecutionPayload: &capella.ExecutionPayload{StateRoot: [32]byte{1}, BlockNumber: i, BlockHash: c17linHash(i)},
-					}}},
-				},
-				Metadata: map[string]any{},
-			}, nil
-		}
+	if raw, err := hex.DecodeString(strings.TrimPrefix(opts.Block, "0x")); err == nil && len(raw) == 32 && raw[0] == 0x4e {
+		i := binary.LittleEndian.Uint64(raw[8:])
+		return &api.Response[*spec.VersionedSignedBeaconBlock]{
+			Data: &spec.VersionedSignedBeaconBlock{
+				Version: spec.DataVersionCapella,
+				Capella: &capella.SignedBeaconBlock{Message: &capella.BeaconBlock{Body: &capella.BeaconBlockBody{
+					ExecutionPayload: &capella.ExecutionPayload{StateRoot: [32]byte{1}, BlockNumber: i, BlockHash: c17linHash(i)},
+				}}},
+			},
+			Metadata: map[string]any{},
+		}, nil
 	}
 	return nil, errors.New("block not found") // also for "head": the cache starts without an execution head
 }
